@@ -169,7 +169,10 @@ fn format_full_scale(
     let rounder = NonDigitRoundingData::default_with_sign(this.sign);
 
     if this.scale <= 0 {
-        exp = (this.scale as i128).neg();
+        // zero has no trailing zeros to write out: '0e3' is printed as '0', not '0000'
+        if !this.is_zero() {
+            exp = (this.scale as i128).neg();
+        }
         // format an integer value by adding trailing zeros to the right
         zero_right_pad_integer_ascii_digits(&mut digits, &mut exp, f.precision());
     } else {
